@@ -29,7 +29,7 @@ RESULT = "header::Header"
 
 # (label class, normalised reject key) - RFC 8152 section 3.1 rules + section 14 (duplicates) + the C01 depth bound
 CENSUS = {
-    ("pre", "propagate:" + codec.TRY_MAP),                       # not a map
+    ("pre", "not-a-map"),                       # not a map
     ("all", "propagate:<common::Label as common::AsCborValue>::from_cbor_value"),  # label not int/tstr or out of range
     ("all", "err:DuplicateMapKey"),
     ("1", "propagate:<common::RegisteredLabelWithPrivate<T> as common::AsCborValue>::from_cbor_value"),
@@ -307,7 +307,7 @@ def _text_rules(ctx, md):
             while src[0] in ("ref", "deref"):
                 src = src[1]
             return src[0] == "field" and src[2] == "content_type"
-        if is_call(t) and t[1].endswith("String::is_empty") and val is True:
+        if is_call(t) and t[1] in ("alloc::string::String::is_empty", "core::str::<impl str>::is_empty") and val is True:
             found["empty"] = is_text(t[2][0])
         elif "trim" in names and is_call(t) and len(t[2]) == 2 and (("ne" in names and val is True) or ("eq" in names and val is False)):
             # trim(text) != text : one operand is trim(<the text>), the other the text itself
